@@ -54,11 +54,13 @@ class C10(PropBase):
             "split point of generated files <= 2 KiB and of the corpus witnesses, 1-byte trickle; random: chunk sizes around "
             "5/10/20/40/80/160 KiB on files with lines up to 80 KiB-1, fixed chunk sizes, tiny chunks; non-trivial = the schedule "
             "splits the input at least once and the input has >= 3 lines; distinct = distinct case lines")
-    trusted_base = G.TRUSTED + ["parse_async: modelled (drive_async), proved equal to parse, and since round 4 run for real: the harness builds a "
-                                "reqwest::Response whose body yields the schedule as HTTP chunks (Body::wrap over a scripted http_body::Body) and "
-                                "compares result, table, callback bytes/calls and callback slice lengths with drive_async; its loop conditions are "
-                                "regenerated from its own source (translate/symfile_loop.py, c10_async_loop_is_source); the textual twin check "
-                                "against parse stays as a guard; HTTP chunks assumed non-empty"]
+    trusted_base = G.TRUSTED + ["parse_async: a model of its own since round 5 (C10/Stream.v: the body of the reqwest::Response is a script of chunks of "
+                                "any size incl. empty ones and of failures); the harness builds a reqwest::Response whose body is a scripted "
+                                "http_body::Body (data frames incl. empty ones, an Err frame) and compares result, table, callback bytes/calls and "
+                                "callback slice lengths with run_stream; the refill block is regenerated from its source (translate/c10_stream.py, "
+                                "c10_stream_refill_is_source), the conditions of the rest of the loop by translate/symfile_loop.py "
+                                "(c10_async_loop_is_source); the textual twin check against parse stays as a guard; trusted: that reqwest's "
+                                "Response::chunk() hands over the frames of the body in order (it is run for real in the harness)"]
     manifest = {
         "text": "Theorems (Coq; all inputs, all reader schedules, any line recogniser): the bytes handed to the callback are exactly the "
                 "first total_consumed bytes of the input, and all of it when the result is Ok (c10_callback_prefix); if every line has "
@@ -72,13 +74,26 @@ class C10(PropBase):
                 "(c10_cached_form_parse). Round 4: the streamed verdict is a table or an error, never a panic of finish() "
                 "(c10_streamed_equals_whole_defined); the real parse_async runs in the harness on every case with the schedule as HTTP chunks "
                 "and must agree with the model, with the whole-buffer parse (lines < 80 KiB) and with the sync parse (no line in the "
-                "80..160 KiB band); c10_async_loop_is_source pins parse_async's conditions to its source.",
+                "80..160 KiB band); c10_async_loop_is_source pins parse_async's conditions to its source. "
+                "Round 5: parse_async over ANY body (C10/Stream.v: chunks of any size, empty chunks, a failure at chunk k): total, callback "
+                "prefix / everything on Ok for all inputs (c10_stream_total_prefix); lines < 80 KiB => the outcome is spec_stream for every "
+                "body: the schedule-free verdict when the body is delivered in full, else the error of the first rejected delivered line or "
+                "the load error (c10_stream_chunk_independent, c10_stream_any_two_bodies, c10_stream_table_chunk_independent on the real "
+                "table); a failing body never yields a table, for all inputs (c10_stream_failed_body_never_ok); the refill block is the one "
+                "in the source (c10_stream_refill_is_source, translate/c10_stream.py). The class cannot be widened: one line of exactly "
+                "80 KiB makes the table depend on the chunking (c10_bound_is_tight), and so does one of 160 KiB - 1 (c10_band_top_dependent); "
+                "both witnesses replayed on the real code. Defect F-C10c (an empty body chunk ended parse_async early: Ok with a truncated "
+                "table) found by this model, reproduced on the real code, fixed in /repo; c10_old_refill_refuted states it on the model of "
+                "the old loop. The correspondence runs the real parse_async on scripted bodies (every prefix length x {empty chunk, failure}, "
+                "random chunkings with empty chunks) against run_stream; the oracle judges failing bodies without the model.",
         "note": "Trusted: Coq kernel; hand-written models (correspondence-checked); buffer contents abstracted to the FIFO contract of "
-                "circular 0.3.0, checked per case; parse_async modelled, tied to its source by a textual twin check against parse. Two defects found and "
-                "fixed in /repo (F-C10a, F-C10b). No axioms.",
+                "circular 0.3.0, checked per case; reqwest's Response::chunk() delivering the body's frames in order. Three defects found and "
+                "fixed in /repo (F-C10a, F-C10b, F-C10c). For line lengths strictly inside the 80..160 KiB band chunk dependence is only "
+                "sampled, not proved for every length (both ends are proved). No axioms.",
     }
     assumptions = ["chunk independence is proved for the line-compositional model; that the real parse_more is line-compositional is what the correspondence run checks",
-                   "a reader that returns 0 bytes into a non-empty buffer before the end of the input is outside the schedule model (std::io::Read says 0 = EOF)"]
+                   "a reader that returns 0 bytes into a non-empty buffer before the end of the input is outside the schedule model (std::io::Read says 0 = EOF)",
+                   "the input of a parse_async run is what the body delivers before it ends or fails (delivered script = input length)"]
 
     def canon_model(self, case, ans):
         return G.model_part(ans)
@@ -359,7 +374,8 @@ class C10(PropBase):
         return len(a["line_lens"]) >= 3 and bool(case.split("|", 1)[1].strip())
 
     def extra(self, ctx):
-        """parse_async must stay the textual twin of parse (it is not modelled separately)."""
+        """parse_async's loop must stay the textual twin of parse's apart from the refill block (a guard next to the translators:
+        the part of the loop after the read is ONE definition in the model, step_after_read, shared by parse and parse_async)."""
         G.record_features(self, ctx)
         src = open(os.path.join(REPO, "breakpad-symbols/src/sym_file/mod.rs")).read()
         try:
@@ -373,7 +389,7 @@ class C10(PropBase):
             ta, tb = a.split(), b.split()
             k = next((i for i, (x, y) in enumerate(zip(ta, tb)) if x != y), min(len(ta), len(tb)))
             return [{"case": None, "profile": "source", "found_input": False,
-                     "what": "parse_async's loop no longer matches parse's (the model covers parse only); first difference near: "
+                     "what": "parse_async's loop no longer matches parse's outside the refill block (the model shares that part between the two); first difference near: "
                              "parse `%s` vs parse_async `%s`" % (" ".join(ta[max(0, k - 6):k + 6]), " ".join(tb[max(0, k - 6):k + 6]))}]
         return []
 
